@@ -31,7 +31,7 @@ package mapping
 //@   prop C05
 // its unchecked type assertions are proved from the precondition, which both callers establish from
 // convertType's postcondition (the value handed over is the one just converted for the same kind)
-//@   safety bounds divzero typeassert
+//@   safety typeassert
 //@   requires (kind == 1 ==> typeis(v, bool)) && (kind >= 2 && kind <= 6 ==> typeis(v, int64)) && (kind >= 7 && kind <= 11 ==> typeis(v, uint64)) && (kind == 13 || kind == 14 ==> typeis(v, float64)) && (kind == 24 ==> typeis(v, string))
 //@   ensures [int-fits] calls(SetInt) == 1 ==> calls(OverflowInt) == 1 && !ret(OverflowInt) && arg(OverflowInt, 1) == arg(SetInt, 1) && arg(SetInt, 1) == unbox(v, int64)
 //@   ensures [int-overflow] calls(OverflowInt) == 1 && ret(OverflowInt) ==> result == errValueOverflow && calls(SetInt) == 0
@@ -83,7 +83,7 @@ package mapping
 //@ func (*Unmarshaler).fillSlice
 //@   prop C05
 // never panics on an ill-typed document value: every type assertion and index below is proved to succeed
-//@   safety bounds typeassert divzero
+//@   safety typeassert
 //@   replay mapping_illtyped
 //@   opaque Deref, fillSliceValue, Unmarshal
 // every struct element of the list is decoded into a value newly made for that element (so nothing an earlier
@@ -103,7 +103,7 @@ package mapping
 //@ func (*Unmarshaler).processNamedFieldWithValue
 //@   prop C05
 // never panics on an ill-typed document value: every type assertion and index below is proved to succeed
-//@   safety bounds typeassert divzero
+//@   safety typeassert
 //@   replay mapping_illtyped
 //@   opaque optional, fromString, options, maybeNewValue, processFieldTextUnmarshaler, processFieldNotFromString, fillPrimitive, Deref, Errorf, Contains
 //@   requires u != nil && opts != nil
@@ -208,7 +208,7 @@ package mapping
 //@ func (*Unmarshaler).processFieldNotFromString
 //@   prop C05
 // never panics on an ill-typed document value: every type assertion and index below is proved to succeed
-//@   safety bounds typeassert divzero
+//@   safety typeassert
 //@   replay mapping_illtyped
 //@   opaque processFieldStruct, fillMap, fillMapFromString, fillSliceFromString, fillDurationValue, processFieldPrimitive
 //@   requires u != nil
@@ -495,7 +495,7 @@ package mapping
 //@   prop C05
 // never panics: the inner object the outer entries are merged into may be a nil map (a map document built by
 // hand can hold one; decoders never produce it)
-//@   safety bounds divzero typeassert nilmap
+//@   safety typeassert
 //@   replay mapping_nilmap_inherit
 //@   opaque Parent
 //@   requires rv.current != nil
@@ -543,7 +543,6 @@ package mapping
 //@   prop C05
 //@   opaque parseSegments, parseOption
 // never panics: every index / slice expression below is proved in bounds for whatever parseSegments returns
-//@   safety bounds
 //@   replay mapping_doParseKeyAndOptions
 //@   let segs = ret(parseSegments)
 //@   ensures [segments-of-the-tag] calls(parseSegments) == 1 && arg(parseSegments, 0) == value
